@@ -165,7 +165,25 @@ func C18() int {
 	var omu = make(chan struct{}, 1)
 	omu <- struct{}{}
 	const N = 1 << 13
-	parallelDo(N, func(m int) {
+	// every combination once; and every REJECTED combination that names a file once more with the file
+	// argument present but empty (`redact "$LOGFILE"` with the variable unset): an argument is an
+	// argument, the job is as ill-defined as before and must be rejected without side effects
+	type combo struct {
+		m         int
+		emptyFile bool
+	}
+	var combos []combo
+	for m := 0; m < N; m++ {
+		combos = append(combos, combo{m, false})
+	}
+	for m := 0; m < N; m++ {
+		if m&bFile != 0 && c18Rule(m) != "" && (m%3 == 0 || thorough(c)) {
+			combos = append(combos, combo{m, true})
+		}
+	}
+	c.Set("rejected_combinations_repeated_with_an_empty_file_argument", len(combos)-N)
+	parallelDo(len(combos), func(ji int) {
+		m, emptyFile := combos[ji].m, combos[ji].emptyFile
 		srv := <-pool
 		defer func() { pool <- srv }()
 		has := func(b int) bool { return m&b != 0 }
@@ -177,7 +195,11 @@ func C18() int {
 		os.WriteFile(outp, []byte(sentinel), 0o644)
 		args := []string{"redact"}
 		if has(bFile) {
-			args = append(args, inp)
+			if emptyFile {
+				args = append(args, "")
+			} else {
+				args = append(args, inp)
+			}
 		}
 		if has(bOut) {
 			args = append(args, "-o", outp)
@@ -225,6 +247,9 @@ func C18() int {
 		cons := srv.Connects()[ncon0:]
 		rule := c18Rule(m)
 		name := c18Name(m)
+		if emptyFile {
+			name += " [the file argument is the empty string]"
+		}
 		c.Eval(name)
 		<-omu
 		if rule == "" {
